@@ -762,6 +762,29 @@ func (e *Engine) structural(fn *ssa.Function, dir string) *Obligation {
 		}
 		o.Status = "proved"
 		o.Detail = "no other function of the package calls " + f[1]
+	case len(f) == 1 && f[0] == "no-early-loop-exit":
+		// every loop of the function is left only through its header (the loop condition / the end of the range): no
+		// break, return or panic from inside a body — a scan that must look at every element looks at every element
+		li := e.loopsOf(fn)
+		for h := range li.headers {
+			for bi := range li.body[h] {
+				if bi == h {
+					continue
+				}
+				for _, succ := range fn.Blocks[bi].Succs {
+					if !li.body[h][succ.Index] {
+						o.Detail = fmt.Sprintf("loop %d is left from inside its body (block %d -> %d)", li.ordinal[h], bi, succ.Index)
+						return o
+					}
+				}
+				if len(fn.Blocks[bi].Succs) == 0 {
+					o.Detail = fmt.Sprintf("loop %d has a return / panic inside its body", li.ordinal[h])
+					return o
+				}
+			}
+		}
+		o.Status = "proved"
+		o.Detail = "every loop is left only through its header"
 	case len(f) >= 1 && f[0] == "blocks-only-on":
 		// `structure blocks-only-on a,b`: the only operations in the function (closures included) that can block are
 		// calls whose name contains one of the listed fragments (the lock and the errgroup the contract talks about):
